@@ -144,7 +144,7 @@ theorem readSymbols_ok (r : RS) (pos : Nat) (tok : Tok) (allow : Bool) (hp : pos
   obtain ⟨s2, h4, h4a, h4b⟩ := findNonSpace_ok r r.size (Nat.le_refl _) (r.size + 1) p1
   obtain ⟨p4, h6, h6a, h6b⟩ := findEnd_ok r r.size (Nat.le_refl _) (r.size + 1) s2
   simp only [h1, h2, h3, h4, bind, Except.bind]
-  by_cases hc : s2 < r.size ∧ (allow = true ∨ grabA r s2 r.size = 0x22 ∨ grabA r s2 r.size = 0x27)
+  by_cases hc : s2 < r.size ∧ (grabA r s2 r.size = 0x22 ∨ grabA r s2 r.size = 0x27)
   · obtain ⟨ep, ok, h5, h5b⟩ := findStringEnd_ok r s2 r.size (Nat.le_refl _) hc.1
     simp only [hc, and_self, if_true, h5, pure, Except.pure]
     by_cases hok : (!allow || !ok) = true
